@@ -482,13 +482,17 @@ class World(object):
         for v in cfg['mounted']:
             ts = cfg['top'][v]
             p = os.path.join(self.rpath(v), '.Trash')
+            # "sticky" is the sticky bit, whatever the other bits say (setgid "group shared" directories, setuid, 0755 ...)
+            rr = random.Random('topmode|%s|%s' % (conc.variant_seed, v))
+            sticky_mode = rr.choice([0o1777, 0o1777, 0o1755, 0o3777, 0o1700, 0o5777])
+            plain_mode = rr.choice([0o777, 0o777, 0o755, 0o2777, 0o2775, 0o4777, 0o6755])
             if ts in ('sticky', 'nonsticky'):
                 os.mkdir(p)
-                os.chmod(p, 0o1777 if ts == 'sticky' else 0o777)
+                os.chmod(p, sticky_mode if ts == 'sticky' else plain_mode)
             elif ts in ('linksticky', 'linknonsticky'):
                 real = os.path.join(self.rpath(v), '.realtrash')
                 os.mkdir(real)
-                os.chmod(real, 0o1777 if ts == 'linksticky' else 0o777)
+                os.chmod(real, sticky_mode if ts == 'linksticky' else plain_mode)
                 os.symlink('.realtrash', p)
             elif ts == 'file':
                 with open(p, 'w') as f:
@@ -702,9 +706,10 @@ class World(object):
                     anomalies.append('trash dir %s lacks %s/' % (t, part))
                 else:
                     consumed.add(prel)
-                    if self.baseline is not None and prel not in self.baseline and snap[prel][1] != 0o700:
+                    # a directory made inside a setgid directory inherits the setgid bit (kernel): private = rwx------
+                    if self.baseline is not None and prel not in self.baseline and (snap[prel][1] & ~0o2000) != 0o700:
                         anomalies.append('created %s/%s with mode %o' % (t, part, snap[prel][1]))
-            if self.baseline is not None and newly and snap[rel][1] != 0o700:
+            if self.baseline is not None and newly and (snap[rel][1] & ~0o2000) != 0o700:
                 anomalies.append('created trash dir %s with mode %o' % (t, snap[rel][1]))
             infos = {}
             pays = {}
